@@ -51,6 +51,14 @@ def run(prop, tier):
                                        "characterisation": False, "detail": [], "wall_s": 0.0})
         out["not_covered"].append("the Kani harnesses were not re-run in this quick run: the encoder/decoder source and the harness file are byte-identical to the text they were discharged for (kani/discharged.json); any edit of those files makes the quick tier run them")
         return [out]
+    if tier != "thorough":
+        # The per-instruction codec is decided by Verus since OpCode::{decode, encode} are proved against the DEFINED wire format (unit codec:
+        # decode#k, encode#k, lemma_k1, lemma_k2).  Kani/CBMC on the compiled crate is the second, bit-precise back end for the same facts; after
+        # an edit of the encoder/decoder it takes 5-35 minutes per harness, so it is left to the thorough tier and nothing is claimed from it here.
+        out["not_covered"].append("the Kani harnesses (second back end for K1/K2, on the compiled crate) were not re-run in this quick run: the encoder/decoder source differs "
+                                  "from the text they were discharged for (kani/discharged.json); the Verus obligations decode#k / encode#k / lemma_k1 / lemma_k2 decide the "
+                                  "per-instruction codec in this tier, the thorough tier re-runs all 17 harnesses")
+        return [out]
     d = tempfile.mkdtemp(prefix="kani.")
     try:
         subprocess.run(["rsync", "-a", "--exclude", "target", "--exclude", ".git", REPO + "/", d + "/"], check=True)
